@@ -41,7 +41,6 @@ impl Clone for Room {
     #[verifier::external_body]
     fn clone(&self) -> (r: Room) ensures r == *self { unimplemented!() }   // #[derive(Clone)]
 }
-pub struct DataModification { x: u8 }
 pub enum EventServiceMessage { DataChanged(DataModification), RoomModified(Room), RoomSynchronized(Uid), Other() }
 pub struct EventService { x: u8 }
 impl EventService {
@@ -163,6 +162,81 @@ pub open spec fn installed(t: Map<Uid, Room>, rooms: Seq<Room>) -> bool {
 //@ insert before-stmt "let _ = query.reply.send(Ok(()));"
                             // [received_room_announced_before_the_answer] a room definition received from a peer and written is installed and announced before the synchronisation goes on
                             assert(announced =~= seq![room0] && auth.rooms@.contains_key(room0.id) && auth.rooms@[room0.id] == room0);
+//@ end
+
+// ------------------------------------------------------------------ (c) the content of the data-changed event
+pub mod trusted_default {
+    use vstd::prelude::*;
+    use std::collections::HashMap;
+    pub uninterp spec fn spec_is_default<V>(v: V) -> bool;
+    #[verifier::external_body]
+    pub broadcast proof fn axiom_default_map<K, V>(v: HashMap<K, V>) ensures #[trigger] spec_is_default(v) ==> v@ == Map::<K, V>::empty() {}
+    #[verifier::external_body]
+    pub broadcast proof fn axiom_default_vec<T>(v: Vec<T>) ensures #[trigger] spec_is_default(v) ==> v@ == Seq::<T>::empty() {}
+    pub broadcast group group_default { axiom_default_map, axiom_default_vec }
+}
+pub use trusted_default::spec_is_default;
+use vstd::std_specs::hash::EntrySpecFns;
+pub assume_specification<'a, K, V: std::default::Default>[ std::collections::hash_map::Entry::<'a, K, V>::or_default ](entry: std::collections::hash_map::Entry<'a, K, V>) -> (value: &'a mut V)
+    ensures
+        match entry.value() { Some(v) => *value == v, None => spec_is_default(*value) },
+        entry.final_value() == Some(*final(value));
+// the rest of the Entry family a refactoring of `add` is likely to reach for: ASSUMED std semantics
+pub assume_specification<'a, K, V, A: Allocator, F: FnOnce() -> V>[ std::collections::hash_map::Entry::<'a, K, V, A>::or_insert_with ](entry: std::collections::hash_map::Entry<'a, K, V, A>, default: F) -> (value: &'a mut V)
+    requires call_requires(default, ()),
+    ensures
+        match entry.value() { Some(v) => *value == v, None => call_ensures(default, (), *value) },
+        entry.final_value() == Some(*final(value));
+pub uninterp spec fn spec_b64(room: Uid) -> String;
+#[verifier::external_body]
+pub fn base64_encode(data: &Uid) -> (r: String) ensures r == spec_b64(*data) { unimplemented!() }
+//@ extract src/database/mod.rs :: struct DataModification
+//@ end
+/// the event names the day `date` of `entity` in the room whose encoded id is `room`
+pub open spec fn names(dm: DataModification, room: String, entity: String, date: i64) -> bool {
+    dm.rooms@.contains_key(room) && dm.rooms@[room]@.contains_key(entity) && dm.rooms@[room]@[entity]@.contains(date)
+}
+//@ extract src/database/mod.rs :: impl DataModification / fn add
+//@ insert body-start
+        broadcast use trusted_default::group_default;
+        let ghost rk = spec_b64(room);
+        let ghost ek = entity;
+        let ghost m0 = self.rooms@;
+//@ insert body-end
+        proof {
+            // proof of the postcondition from the std contracts of entry / or_default / push: no anchor inside the body is needed
+            let r0 = if m0.contains_key(rk) { m0[rk]@ } else { Map::<String, Vec<i64>>::empty() };
+            let e0 = if r0.contains_key(ek) { r0[ek]@ } else { Seq::<i64>::empty() };
+            let e1 = self.rooms@[rk]@[ek]@;
+            // [event_lists_room_and_entity] the room and the entity of the added day are present in the event
+            assert(self.rooms@.contains_key(rk) && self.rooms@[rk]@.contains_key(ek));
+            // [event_day_appended_to_the_entity_list] the day is appended to the days already listed for that room and entity
+            assert(e1 == e0.push(date));
+            assert forall|d: i64| e1.contains(d) <==> (e0.contains(d) || d == date) by {
+                if e1.contains(d) { let i = choose|i: int| 0 <= i < e1.len() && e1[i] == d; if i < e0.len() { assert(e0[i] == d); } }
+                if e0.contains(d) { let i = choose|i: int| 0 <= i < e0.len() && e0[i] == d; assert(e1[i] == d); }
+                if d == date { assert(e1[e0.len() as int] == d); }
+            }
+            assert(self.rooms@ =~= m0.insert(rk, self.rooms@[rk]));
+            assert(self.rooms@[rk]@ =~= r0.insert(ek, self.rooms@[rk]@[ek]));
+            assert forall|r: String, e: String, d: i64| #[trigger] names(*self, r, e, d) <==> (names(*old(self), r, e, d) || (r == rk && e == ek && d == date)) by {
+                if r == rk {
+                    if e == ek {
+                        assert(self.rooms@[r]@[e]@.contains(d) <==> (e0.contains(d) || d == date));
+                    } else {
+                        assert(self.rooms@[r]@.contains_key(e) <==> r0.contains_key(e));
+                        if r0.contains_key(e) { assert(self.rooms@[r]@[e] == r0[e]); }
+                    }
+                } else {
+                    assert(self.rooms@.contains_key(r) <==> m0.contains_key(r));
+                    if m0.contains_key(r) { assert(self.rooms@[r] == m0[r]); }
+                }
+            }
+        }
+//@ spec
+        ensures
+            // [event_names_every_added_day] the whole view: the event names every day it named before, the added (room, entity, day), and nothing else - also when the room and the entity are already present
+            forall|r: String, e: String, d: i64| #[trigger] names(*final(self), r, e, d) <==> (names(*old(self), r, e, d) || (r == spec_b64(room) && e == entity && d == date)),
 //@ end
 
 // ------------------------------------------------------------------ (b) recomputation requests of the database service
